@@ -967,7 +967,7 @@ def set_length_range(m: types.Model, d: types.Data, index: int = -1):
 
   wp.launch(
     _set_length_range,
-    dim=(d.nworld, m.nu),
+    dim=(m.actuator_lengthrange.shape[0], m.nu),
     inputs=[
       m.actuator_trntype,
       m.actuator_trnid,
